@@ -43,7 +43,7 @@ def let_text(layers, body, joints=None):
         t = 'let\n' + ''.join('  %s = %s;\n' % kv for kv in L.items()) + 'in\n' + j + t
     return t
 TINY = ['{ a.b.c = 1; }', '{\n  a.b.c = 1;\n}', 'rec { a.b.c = 1; }', '{ a.b = 1; }', '{ x = 1; }', '{ a.b.c = 1; a.b.d = 2; }', '{\n  a.b.c.d = 1;\n}']
-def gen_doc(R, scoped=False, maxlayers=3, quoted=0.0, tiny=0.0, joints=0.0, attrpath_nested=False, layer_refs=0.0):
+def gen_doc(R, scoped=False, maxlayers=3, quoted=0.0, tiny=0.0, joints=0.0, attrpath_nested=False, layer_refs=0.0, inherits=0.0):
     """canonical document: wrapper + 0..n let layers directly around a canonical F0 set; returns (text, meta)"""
     G = DocGen(R, refs=False, families=0.2)
     G.attrpath_top_only = not attrpath_nested
@@ -59,6 +59,11 @@ def gen_doc(R, scoped=False, maxlayers=3, quoted=0.0, tiny=0.0, joints=0.0, attr
     nl = R.choice([0, 0, 1, 1, 2, 3][:maxlayers + 3]) if WRAPPERS[shape][2] else 0
     layers = gen_layers(R, nl)
     pre, suf, _ = WRAPPERS[shape]
+    inherited = []
+    if not is_tiny and R.random() < inherits and body.rstrip().endswith('\n}'):
+        # inherit clauses: the names they bring in are attributes of the set whose values are not sets
+        line = R.choice(['  inherit inh1 inh2;\n', '  inherit (pkgs) inh1;\n', '  inherit inh1;\n  inherit (lib) inh2;\n'])
+        inherited = re.findall(r'inh\d', line); body = body.rstrip()[:-1] + line + '}'
     refs = []
     if layers and not is_tiny and R.random() < layer_refs and body.rstrip().endswith('\n}'):
         # bindings of the body whose value is a name bound in a let layer: an edit of them goes through the reference
@@ -70,7 +75,7 @@ def gen_doc(R, scoped=False, maxlayers=3, quoted=0.0, tiny=0.0, joints=0.0, attr
     else:
         if layers and pre.endswith(' '): pre = pre[:-1] + '\n'          # a let under an inline lambda head starts on its own line
         text = pre + let_text(layers, body, jt) + suf + '\n'
-    return text, {'shape': shape, 'layers': layers, 'commented': commented, 'joints': jt, 'tiny': is_tiny, 'refs': refs}
+    return text, {'shape': shape, 'layers': layers, 'commented': commented, 'joints': jt, 'tiny': is_tiny, 'refs': refs, 'inherited': inherited}
 
 # ------------------------------------------------------------------ readers over the CST
 def read_layers(text):
